@@ -127,6 +127,20 @@ class GBackend(Backend, backend_name="vtsym"):
         raise EngineError("where in E1-generic")
 
     @staticmethod
+    def max(tensor, axis=None):
+        G.log("max")
+        if axis is not None:
+            raise EngineError("max along an axis in E1-generic")
+        return G.opaque_scalar("max", G.lift(tensor))
+
+    @staticmethod
+    def min(tensor, axis=None):
+        G.log("min")
+        if axis is not None:
+            raise EngineError("min along an axis in E1-generic")
+        return G.opaque_scalar("min", G.lift(tensor))
+
+    @staticmethod
     def arange(start=0, stop=None, step=None):
         return np.arange(start, stop, step) if stop is not None else np.arange(start)
 
